@@ -32,6 +32,8 @@ def read_fields(b):
     while i < len(b):
         key, i = read_varint(b, i)
         f, wt = key >> 3, key & 7
+        if f == 0:
+            raise ValueError("field number 0")
         if wt == 0:
             v, i = read_varint(b, i)
         elif wt == 2:
@@ -109,7 +111,11 @@ def decode_stargate(type_url, value_hex):
 
 def decode_msg(m):
     if m["kind"] == "stargate":
-        x = decode_stargate(m["type_url"], m["value"])
+        try:
+            x = decode_stargate(m["type_url"], m["value"])
+        except (ValueError, UnicodeDecodeError) as e:
+            # not protobuf at all: no chain module can decode it (the transaction fails when it is dispatched)
+            x = {"k": "undecodable", "type_url": m["type_url"], "hex": m["value"][:200], "error": str(e)}
     elif m["kind"] == "bank_send":
         x = {"k": "bank_send", "to": m["to"], "coins": [{"denom": c["denom"], "amount": int(c["amount"])} for c in m["amount"]]}
     else:
